@@ -5,7 +5,7 @@ namespace AgdbCodec
 /-- what `set_type(t); set_value(v)` leaves in a fresh index, for every `v` of at most 15 bytes -/
 theorem setValue_spec (t : Nat) (ht : t < 16) : ∀ (v : List Nat), v.length ≤ 15 →
     ∃ i', setValue (setType newIdx t) v = some i' ∧ getType i' = t ∧ idxValue i' = v ∧
-      isValue i' = true
+      isValue i' = true ∧ i'.length = 16
   | [], _ => by
       simp only [setValue, setType, setSize, setMeta, newIdx, idxMeta, idxSize, getType, idxValue, idxIndex, isValue, unle8, List.replicate, List.take, List.drop, List.length, List.getD, List.cons_append, List.nil_append]
       simp
@@ -76,11 +76,14 @@ theorem setValue_spec (t : Nat) (ht : t < 16) : ∀ (v : List Nat), v.length ≤
 theorem setIndex_spec (t : Nat) (ht : t < 16) (ix : Nat) (h1 : 1 ≤ ix) (h2 : ix < U64) :
     getType (setIndex (setType newIdx t) ix) = t ∧
       idxIndex (setIndex (setType newIdx t) ix) = ix ∧
-      isValue (setIndex (setType newIdx t) ix) = false := by
+      isValue (setIndex (setType newIdx t) ix) = false ∧
+      (setIndex (setType newIdx t) ix).length = 16 := by
   have hix : idxIndex (setIndex (setType newIdx t) ix) = ix := by
     simp only [idxIndex, setIndex]
     exact unle8_le8_append ix _ h2
-  refine ⟨?_, hix, ?_⟩
+  refine ⟨?_, hix, ?_, ?_⟩
+  rotate_left 2
+  · simp [setIndex, setType, setSize, setMeta, newIdx, le8]
   · simp only [setIndex, setType, setSize, setMeta, newIdx, idxMeta, idxSize, getType, le8,
       List.replicate, List.take, List.drop, List.getD, List.cons_append, List.nil_append]
     simp
